@@ -174,11 +174,12 @@ def zernike_compose(mask, coeffs, normalize=True, rho=None, theta=None):
 
     """
     mask = np.asarray(mask)
-    coeffs = np.asarray(coeffs)
+    # a row or column vector of coefficients is the same list of coefficients
+    coeffs = np.asarray(coeffs).ravel()
     opd = np.zeros(mask.shape)
 
-    for index, coeff in np.ndenumerate(coeffs):
-        opd += coeff * zernike(mask, index[0]+1, normalize, rho, theta)
+    for index, coeff in enumerate(coeffs):
+        opd += coeff * zernike(mask, index+1, normalize, rho, theta)
 
     return opd
 
